@@ -134,9 +134,9 @@ Proof.
   split; [vm_compute; reflexivity|]. split; [vm_compute; exact I|]. split; [right; vm_compute; reflexivity|].
   cbn [c_expected example_case]. exists example_cst, [], [].
   split.
-  { unfold example_cst. cbn [ok lev]. unfold atom_ok, unquoted_ok. cbn.
+  { unfold example_cst, ok. cbn [okx lev andb]. unfold atom_okx, unquoted_ok. cbn.
     repeat match goal with |- _ /\ _ => split end;
-      first [reflexivity | discriminate | lia | exact I | left; discriminate | right; reflexivity | intros _; reflexivity
+      first [reflexivity | discriminate | lia | exact I | left; discriminate | right; reflexivity | intros _; reflexivity | intros _ _; reflexivity
             | unfold unquoted_ok; cbn; repeat split; first [reflexivity | discriminate] ]. }
   split; [reflexivity|]. split; [reflexivity|]. split; [vm_compute; reflexivity|]. split; [reflexivity|].
   intros a Ha. cbn in Ha. destruct Ha as [<-|[<-|[<-|[]]]]; vm_compute; reflexivity.
